@@ -57,8 +57,13 @@ DKINDS = ["default", "instance-dispatch-attrerror", "custom-raises"]
 CONFIGS = [(True, 1.0), (True, 2.0), (False, 2.0)]          # (own Config?, version)
 
 
+HOSTS = ["dispatcher", "pooled", "simple", "cgi"]
+
+
 def _dcase(case):
-    return GN.base_case(case["ver"], case["dkind"], jsonclass=case["jsonclass"])
+    d = GN.base_case(case["ver"], case["dkind"], jsonclass=case["jsonclass"])
+    d["host"] = case.get("host")
+    return d
 
 
 # ====================================================================== history
@@ -75,8 +80,8 @@ class History(pipeline.Stream):
         self.J = jsonrpclib
         self._baseline = {}
 
-    def make(self, own, ver, dkind, kinds, jsonclass=True):
-        return {"own": own, "ver": ver, "jsonclass": jsonclass, "dkind": dkind, "kinds": list(kinds),
+    def make(self, own, ver, dkind, kinds, jsonclass=True, host=None):
+        return {"own": own, "ver": ver, "jsonclass": jsonclass, "dkind": dkind, "kinds": list(kinds), "host": host,
                 "bodies": [CS.body_of(k) for k in kinds],
                 "classes": CS.SERVER_TABLES[0], "handlers": CS.SERVER_TABLES[1]}
 
@@ -87,12 +92,12 @@ class History(pipeline.Stream):
         for ln in range(1, maxlen + 1):
             for ks in itertools.product(CS.KINDS, repeat=ln):
                 for (own, ver) in CONFIGS:
-                    cases.append(self.make(own, ver, DKINDS[n % len(DKINDS)], ks))
+                    cases.append(self.make(own, ver, DKINDS[n % len(DKINDS)], ks, host=HOSTS[(n // len(DKINDS)) % len(HOSTS)]))
                     n += 1
         for _ in range(300 if tier == "quick" else 4000):
             own, ver = rng.choice(CONFIGS)
             ks = [rng.choice(CS.KINDS) for _ in range(rng.randint(maxlen + 1, 6))]
-            cases.append(self.make(own, ver, rng.choice(DKINDS), ks, jsonclass=(not own) or rng.random() < 0.8))
+            cases.append(self.make(own, ver, rng.choice(DKINDS), ks, jsonclass=(not own) or rng.random() < 0.8, host=rng.choice(HOSTS)))
         return cases
 
     # ---- implementation
@@ -123,7 +128,7 @@ class History(pipeline.Stream):
 
     def baseline(self, case, body):
         """the reply to `body` from a fresh, identically configured dispatcher without history"""
-        key = json.dumps([case["own"], case["ver"], case["jsonclass"], case["dkind"], body])
+        key = json.dumps([case["own"], case["ver"], case["jsonclass"], case["dkind"], case.get("host"), body])
         if key not in self._baseline:
             self._baseline[key] = CS.reply_skeleton(self._run_sequence(case, [body])[0])
         return self._baseline[key]
@@ -194,11 +199,12 @@ class History(pipeline.Stream):
 
     def kind(self, case, obs):
         n = len(case["bodies"])
-        return "len%s / %s v%s / %s" % (n if n <= 3 else ">3", "own" if case["own"] else "DEFAULT", case["ver"], case["dkind"])
+        return "len%s / %s v%s / %s / hosted by %s" % (n if n <= 3 else ">3", "own" if case["own"] else "DEFAULT", case["ver"], case["dkind"],
+                                                       case.get("host") or "dispatcher")
 
     def describe(self, case, obs):
         return {"server_config": "own Config" if case["own"] else "jsonrpclib.config.DEFAULT", "server_version": case["ver"],
-                "use_jsonclass": case["jsonclass"], "dispatch": case["dkind"], "kinds": case["kinds"], "bodies": case["bodies"],
+                "host": case.get("host") or "dispatcher", "use_jsonclass": case["jsonclass"], "dispatch": case["dkind"], "kinds": case["kinds"], "bodies": case["bodies"],
                 "replies": [None if s["raised"] is not None else s["text"] for s in obs["steps"]],
                 "raised": [None if s["raised"] is None else type(s["raised"]).__name__ for s in obs["steps"]],
                 "server_snapshot_diff": [s["server_diff"] for s in obs["steps"]],
